@@ -191,6 +191,85 @@ theorem loop_steps_le (p : Prog) (maxSteps : Nat) (h : Op.step ∉ p.body) (f : 
       omega
     · simp only [hc, Bool.false_eq_true, if_false]; omega
 
+/-- the loop condition of `_model_run_func` -/
+def goOn (maxSteps : Nat) (s : State) : Bool := s.running && decide (s.steps < maxSteps)
+
+/-- `s` stepped by hand `j` times -/
+def handFrom (p : Prog) (s : State) (j : Nat) : State := run p.cfg s (List.replicate j (Op.step :: p.body)).flatten
+
+theorem handFrom_succ (p : Prog) (s : State) (j : Nat) : handFrom p s (j + 1) = handFrom p (stepOnce p s) j := by
+  simp only [handFrom, List.replicate_succ, List.flatten_cons, run_append, stepOnce_eq_run]
+
+/-- the loop steps exactly while the loop condition holds: it ends at the *first* hand-stepped state at which the
+    model has stopped or reached `maxSteps` (fuel permitting) -/
+theorem loop_eq_run_min (p : Prog) (maxSteps : Nat) (f : Nat) (s : State) :
+    ∃ k ≤ f, loop p maxSteps f s = handFrom p s k ∧ ∀ j < k, goOn maxSteps (handFrom p s j) = true := by
+  induction f generalizing s with
+  | zero => exact ⟨0, Nat.le_refl _, rfl, fun j hj => absurd hj (Nat.not_lt_zero _)⟩
+  | succ f ih =>
+    simp only [loop]
+    by_cases hc : (s.running && decide (s.steps < maxSteps)) = true
+    · simp only [hc, if_true]
+      obtain ⟨k, hk, he, hmin⟩ := ih (stepOnce p s)
+      refine ⟨k + 1, by omega, by rw [he, handFrom_succ], ?_⟩
+      intro j hj
+      cases j with
+      | zero => exact hc
+      | succ j => rw [handFrom_succ]; exact hmin j (by omega)
+    · simp only [hc, Bool.false_eq_true, if_false]
+      exact ⟨0, by omega, rfl, fun j hj => absurd hj (Nat.not_lt_zero _)⟩
+
+/-- the model constructed and stepped by hand `j` times -/
+def hand (p : Prog) (j : Nat) : State := run p.cfg (Collect.init p.cfg p.tables) (histOf p j)
+
+theorem hand_eq (p : Prog) (j : Nat) : hand p j = handFrom p (construct p) j := by
+  rw [hand, histOf, run_append]; rfl
+
+/-- the number of steps `batch_run` takes is pinned: the least `k` at which the hand-stepped model has stopped or
+    reached `maxSteps` -/
+theorem runModel_eq_run_min (p : Prog) (maxSteps : Nat) :
+    ∃ k ≤ maxSteps, runModel p maxSteps = hand p k ∧ (∀ j < k, goOn maxSteps (hand p j) = true) ∧
+      goOn maxSteps (hand p k) = false := by
+  obtain ⟨k, hk, he, hmin⟩ := loop_eq_run_min p maxSteps maxSteps (construct p)
+  refine ⟨k, hk, by rw [runModel, he, hand_eq], fun j hj => by rw [hand_eq]; exact hmin j hj, ?_⟩
+  have hd := loop_done p maxSteps maxSteps (construct p) (by omega)
+  rw [hand_eq, ← he]
+  unfold goOn
+  rcases hd with hd | hd
+  · simp [hd]
+  · have : ¬ (loop p maxSteps maxSteps (construct p)).steps < maxSteps := by omega
+    simp [this]
+
+theorem find?_range_first (P : Nat → Bool) (n k : Nat) (hk : k < n) (hP : P k = true) (hmin : ∀ j < k, P j = false) :
+    (List.range n).find? P = some k := by
+  induction n with
+  | zero => omega
+  | succ n ih =>
+    rw [List.range_succ, List.find?_append]
+    by_cases hkn : k < n
+    · rw [ih hkn]; rfl
+    · have hkn' : k = n := by omega
+      subst hkn'
+      have : (List.range k).find? P = none := by
+        rw [List.find?_eq_none]
+        intro j hj
+        simp [hmin j (List.mem_range.mp hj)]
+      simp [this, hP]
+
+/-- the number of steps `_model_run_func` takes, computed by stepping by hand: the first `j` at which the hand-stepped
+    model has stopped or reached `maxSteps` -/
+def stepsTaken (p : Prog) (maxSteps : Nat) : Nat :=
+  ((List.range (maxSteps + 1)).find? fun j => !goOn maxSteps (hand p j)).getD maxSteps
+
+theorem runModel_eq_hand (p : Prog) (maxSteps : Nat) :
+    runModel p maxSteps = hand p (stepsTaken p maxSteps) ∧ stepsTaken p maxSteps ≤ maxSteps := by
+  obtain ⟨k, hk, he, hmin, hstop⟩ := runModel_eq_run_min p maxSteps
+  have : stepsTaken p maxSteps = k := by
+    unfold stepsTaken
+    rw [find?_range_first _ _ k (by omega) (by simp [hstop]) (fun j hj => by simp [hmin j hj])]
+    rfl
+  rw [this]; exact ⟨he, hk⟩
+
 theorem runModel_eq_run (p : Prog) (maxSteps : Nat) :
     ∃ k ≤ maxSteps, runModel p maxSteps = run p.cfg (Collect.init p.cfg p.tables) (histOf p k) := by
   obtain ⟨k, hk, he⟩ := loop_eq_run p maxSteps maxSteps (construct p)
@@ -368,6 +447,28 @@ theorem runRows_of_holds (cls : Kwargs κ → Prog) (maxSteps : Nat) (per : Int)
     have : snaps[i]? = some snaps[i] := List.getElem?_eq_getElem hlt
     rw [this]
     exact rowsAt_of_holds h r i _ this
+
+/-- the rows `_model_run_func` returns for a run, written out: the model is the one stepped by hand `stepsTaken` times;
+    of its stored collections `snaps` the positions `picks` selects are reported, each as `rowsOfSnap` -/
+def rowsSpec (cls : Kwargs κ → Prog) (maxSteps : Nat) (period : Int) (r : Run κ) : List (BRow κ) :=
+  let p := cls r.kwargs
+  let snaps := storedSnaps p.cfg (Collect.init p.cfg p.tables) (histOf p (stepsTaken p maxSteps))
+  match picks snaps.length period with
+  | .ok ps => ps.flatMap fun i => match snaps[i]? with
+    | some sn => rowsOfSnap p.cfg snaps r sn
+    | none => []
+  | .error _ => []
+
+theorem runRows_eq_rowsSpec (cls : Kwargs κ → Prog) (maxSteps : Nat) (per : Int) (hp : per ≠ 0) (r : Run κ)
+    (hT : Total (cls r.kwargs).cfg) : runRows cls maxSteps per r = .ok (rowsSpec cls maxSteps per r) := by
+  have he := (runModel_eq_hand (cls r.kwargs) maxSteps).1
+  have hh := holds_history hT (cls r.kwargs).tables (histOf (cls r.kwargs) (stepsTaken (cls r.kwargs) maxSteps))
+  have hh' : Holds (cls r.kwargs).cfg (storedSnaps (cls r.kwargs).cfg (Collect.init (cls r.kwargs).cfg (cls r.kwargs).tables)
+      (histOf (cls r.kwargs) (stepsTaken (cls r.kwargs) maxSteps))) (runModel (cls r.kwargs) maxSteps) := by
+    rw [he]; exact hh
+  obtain ⟨ps, hps, hr⟩ := runRows_of_holds cls maxSteps per hp r _ hh'
+  rw [hr]
+  simp only [rowsSpec, hps]
 
 theorem lastWith_of_nodup_keys (key : α → Nat) (l : List α) (h : (l.map key).Nodup) (x : α) (hx : x ∈ l) :
     lastWith (fun y => key y == key x) l = some x := by
